@@ -228,6 +228,15 @@ theorem C19_include_union (w1 w2 : List Filt.What) (a : Filt.AttrId) (t : String
     Filt.includeF (w1 ++ w2) a t = (Filt.includeF w1 a t || Filt.includeF w2 a t) := by
   simp [Filt.includeF_eq_any]
 
+/-- **C19_filter_history_independent**: one filter object asked a sequence of questions answers each of them as a
+    fresh filter would — the answers to a concatenated history are the answers to its parts, and the answer to a
+    question does not depend on its position. -/
+theorem C19_filter_history_independent (what : List Filt.What) (h1 h2 : List Filt.Query) :
+    Filt.model ⟨what, h1 ++ h2⟩
+      = { inc := (Filt.model ⟨what, h1⟩).inc ++ (Filt.model ⟨what, h2⟩).inc,
+          exc := (Filt.model ⟨what, h1⟩).exc ++ (Filt.model ⟨what, h2⟩).exc } := by
+  simp [Filt.model]
+
 example : Filt.includeF [.type "int"] ⟨"x", "p"⟩ "bool" = false ∧
     Filt.includeF [.junk, .attr ⟨"x", "p"⟩] ⟨"x", "p"⟩ "bool" = true := by decide
 
